@@ -462,6 +462,13 @@ func (r *Reader) mapValue(t reflect.Type, path string) {
 			switch {
 			case numeric:
 				less = leUint(prev) < leUint(k)
+			case t == tAccOutput:
+				// service id (numeric), then hash
+				if a, b := leUint(prev[:4]), leUint(k[:4]); a != b {
+					less = a < b
+				} else {
+					less = bytes.Compare(prev[4:], k[4:]) < 0
+				}
 			case t.Key() == typeOf[types.LookupMetaMapkey]():
 				if c := bytes.Compare(prev[:32], k[:32]); c != 0 {
 					less = c < 0
@@ -471,7 +478,7 @@ func (r *Reader) mapValue(t reflect.Type, path string) {
 			default:
 				less = bytes.Compare(prev, k) < 0
 			}
-			if !less && t != tAccOutput && !r.tol() {
+			if !less && !r.tol() {
 				r.fail(RKeyOrder, p+".key", "not strictly ascending", koff)
 			}
 		}
